@@ -194,3 +194,91 @@ def is_const(e: ast.AST | None, value: object) -> bool:
 
 def same_text(a: ast.AST, b: ast.AST) -> bool:
     return txt(a) == txt(b)
+
+
+# =================================================================================================
+# guard-evaluating path exploration
+# =================================================================================================
+class Explore:
+    """Explore the paths of a function CFG that are feasible under a partial environment.
+
+    ``env`` maps expression *texts* to values (``{"self._closed": True}``).  At an If/While test the
+    test is evaluated with ``mini_eval``; when it evaluates, only the taken edge is followed, when it
+    does not (free names) both edges are followed.  Simple assignments ``name = e`` / ``self.x = e``
+    update the environment when ``e`` evaluates and forget the target otherwise, so a flag that is
+    re-assigned on the way is not trusted afterwards.  Exceptional edges are followed only out of
+    ``raise`` statements unless ``follow_exc`` is set.  The result is the set of CFG node ids that can
+    be reached; exploration is exhaustive over (node, relevant-env) pairs.
+    """
+
+    def __init__(self, cfg: CFG, *, follow_exc: bool = False, limit: int = 50000) -> None:
+        self.cfg = cfg
+        self.follow_exc = follow_exc
+        self.limit = limit
+
+    def run(self, starts: set[int], env: dict[str, object], *, stop: set[int] = frozenset()) -> set[int]:  # type: ignore[assignment]
+        from ..util import mini_eval  # local import: util imports core
+
+        cfg = self.cfg
+        seen: set[tuple[int, tuple]] = set()
+        reached: set[int] = set()
+        work: list[tuple[int, dict[str, object]]] = [(s, dict(env)) for s in starts]
+        steps = 0
+        while work:
+            steps += 1
+            if steps > self.limit:
+                raise AnalysisError("path exploration exceeded its budget")
+            nid, e = work.pop()
+            key = (nid, tuple(sorted((k, repr(v)) for k, v in e.items())))
+            if key in seen:
+                continue
+            seen.add(key)
+            reached.add(nid)
+            if nid in stop:
+                continue
+            node = cfg.nodes[nid]
+            succ = list(cfg.succ[nid])
+            st = node.stmt
+            if node.kind == "test" and isinstance(st, (ast.If, ast.While)):
+                try:
+                    v = bool(mini_eval(st.test, e))
+                    lab = "T" if v else "F"
+                    succ = [x for x in succ if cfg.label.get((nid, x)) == lab]
+                except AnalysisError:
+                    succ = [x for x in succ if cfg.label.get((nid, x)) in ("T", "F") or self.follow_exc]
+            elif node.kind == "raise":
+                pass
+            else:
+                if not self.follow_exc:
+                    succ = [x for x in succ if cfg.label.get((nid, x)) != "exc"]
+                if node.kind == "done" and st is not None:
+                    tg, val = assign_parts(st)
+                    if tg:
+                        e = dict(e)
+                        for t in tg:
+                            if isinstance(t, (ast.Name, ast.Attribute)):
+                                k = txt(t)
+                                try:
+                                    if isinstance(st, ast.AugAssign) or val is None:
+                                        raise AnalysisError("aug")
+                                    e[k] = mini_eval(val, e)
+                                except AnalysisError:
+                                    e.pop(k, None)
+                                # anything derived from the target is stale now
+                                for k2 in [k2 for k2 in e if k2 != k and (k2.startswith(k + ".") or k2.startswith(k + "["))]:
+                                    e.pop(k2, None)
+                            else:
+                                for x in ast.walk(t):
+                                    if isinstance(x, ast.Name):
+                                        e.pop(x.id, None)
+                    elif isinstance(st, ast.Expr) and isinstance(st.value, ast.Call) and isinstance(st.value.func, ast.Attribute) and st.value.func.attr in ("clear", "append", "pop", "extend", "insert", "update"):
+                        k = txt(st.value.func.value)
+                        if k in e:
+                            e = dict(e)
+                            if st.value.func.attr == "clear" and isinstance(e[k], (list, dict, set)):
+                                e[k] = type(e[k])()
+                            else:
+                                e.pop(k, None)
+            for x in succ:
+                work.append((x, e))
+        return reached
